@@ -42,6 +42,11 @@ func verifHarness_C16_resource() {
 		ctl = verifC16Plain[subset]
 	}
 	res := base + verifLower3(subset, uses)
+	// registered at top level or inside a group (whose prefix then comes first)
+	inGroup := (cfg/21504)%2 == 1
+	if inGroup {
+		res = "/grp" + res
+	}
 	v := &verifIDs{}
 	next := 0
 	usesIDs := map[string][]int{}
@@ -65,7 +70,13 @@ func verifHarness_C16_resource() {
 		hs, ids := v.mk(&next, ng, 3)
 		groupMws, groupIDs = hs, ids
 	}
-	k := verifCatch(func() { r.Resource(base, ctl, groupMws...) })
+	k := verifCatch(func() {
+		if inGroup {
+			r.Group("/grp", func() { r.Resource(base, ctl, groupMws...) })
+		} else {
+			r.Resource(base, ctl, groupMws...)
+		}
+	})
 	verifAssert(k == "", "a pointer-to-struct controller is accepted")
 
 	// (1) exactly the documented (method, path, name) triples of the implemented actions
@@ -210,11 +221,22 @@ func (*verifNotStruct) Index(c *Context) {}
 func verifHarness_C16_invalid() {
 	r := New()
 	var bad any
-	if verifCfg()%2 == 0 {
+	switch verifCfg() % 5 {
+	case 0:
 		bad = Vc127{}
-	} else {
+	case 1:
 		n := verifNotStruct(1)
 		bad = &n
+	case 2: // a pointer to a pointer is a pointer to a non-struct
+		p := &Vc127{}
+		bad = &p
+	case 3:
+		p := &Vc127{}
+		pp := &p
+		bad = &pp
+	case 4:
+		var i any = &Vc127{}
+		bad = &i // pointer to an interface
 	}
 	k := verifCatch(func() { r.Resource("/", bad) })
 	verifAssert(k == "panic", "a non-pointer or non-struct controller is rejected at registration")
